@@ -218,12 +218,12 @@ def run_ts(ctx, rng, n):
         elif kind == "trail": data = body + bytes([rng.getrandbits(8)])
         else: data = body
         if len(data) > 400: continue
-        sub = rng.choice(["*", "*", "".join(rng.choice("01") for _ in range(ncols)) or "*"])
+        sub = rng.choice(["*", "*", "".join(rng.choice("01") for _ in range(ncols)) or "*", "skip"])
         fail = rng.choice([-1, -1, 0, 1, 2, 3, 4, 6, 9])
         lines = ["mdnew 1", "tmnew 1 1"]
         for c in range(ncols):
             lines += ["mdnew %d" % (c + 2), "cmset %d %s %d" % (c + 2, name_hex(b"c%d" % c), tys[c]), "tmadd 1 %d" % (c + 2)]
-        lines += ["in 1 %s" % hx(data), ("allocfail %d" % fail) if fail >= 0 else "nallocs", "rts 1 31 1 %s" % sub, "pos 1"]
+        lines += ["in 1 %s" % hx(data), ("allocfail %d" % fail) if fail >= 0 else "nallocs", ("skts 1 1" if sub == "skip" else "rts 1 31 1 %s" % sub), "pos 1"]
         cases.append(Case("t%d" % len(plan), lines, compare=False)); plan.append((ncols, data, sub, fail, len(lines)))
     res = vlib.run_cases(cases, ctx["harness"], None)
     coq = os.path.join(vlib.V, "coq")
@@ -231,6 +231,8 @@ def run_ts(ctx, rng, n):
     evals = []
     for (ncols, data, sub, fail, nl) in plan:
         sl = "[%s]" % "; ".join(str(b) for b in data)
+        if sub == "skip":
+            evals.append("outC (callC prog_env %d prog_sbdf_ts_skip [tok; VCell 0 0] [] (%d) %s [Some [VNull; VInt %d; VNull]])" % (FUEL, fail, sl, ncols)); continue
         mem = [] if sub == "*" else [int(ch != "0") for ch in sub] + [0]
         subv = "VNull" if sub == "*" else "VPtr RIn 0"
         evals.append("outC (callC prog_env %d prog_sbdf_ts_read [tok; VCell 0 0; %s; tok] [%s] (%d) %s [Some [VNull; VInt %d; VNull]])"
